@@ -616,7 +616,7 @@ class ListBox(Widget, WidgetContainerMixin):
             rows = 0
 
             focused_w, idx = self.body.get_focus()
-            if focused_w:
+            if focused_w is not None:  # an empty container is falsy but still a widget
                 rows += focused_w.rows((cols,), focus)
 
                 prev, pos = self._body.get_prev(idx)
@@ -1975,12 +1975,12 @@ class ListBox(Widget, WidgetContainerMixin):
         while True:
             yield pos
             w, pos = self._body.get_next(pos)
-            if not w:
+            if w is None:
                 break
         pos = focus_pos
         while True:
             w, pos = self._body.get_prev(pos)
-            if not w:
+            if w is None:
                 break
             yield pos
 
@@ -2005,12 +2005,12 @@ class ListBox(Widget, WidgetContainerMixin):
         pos = focus_pos
         while True:
             w, pos = self._body.get_prev(pos)
-            if not w:
+            if w is None:
                 break
             yield pos
         pos = focus_pos
         while True:
             yield pos
             w, pos = self._body.get_next(pos)
-            if not w:
+            if w is None:
                 break
